@@ -78,10 +78,16 @@ namespace c17
     class WeightedRegionObjective : public ob::OptimizationObjective
     {
     public:
-        WeightedRegionObjective(const world::World *w, int axis, double cut, double weight)
-          : ob::OptimizationObjective(w->si), w_(w), axis_(axis), cut_(cut), weight_(weight)
+        WeightedRegionObjective(const world::World *w, int axis, double cut, double weight, double wind = 0.0)
+          : ob::OptimizationObjective(w->si), w_(w), axis_(axis), cut_(cut), weight_(weight), wind_(wind)
         {
             description_ = "weighted region length";
+        }
+        // with a "head wind" (a factor 1 + wind * cos(angle to the other axis), constant along a straight motion, so the
+        // cost stays additive) the cost of a motion depends on its direction
+        bool isSymmetric() const override
+        {
+            return wind_ == 0.0;
         }
         ob::Cost stateCost(const ob::State *) const override
         {
@@ -98,6 +104,10 @@ namespace c17
             L = std::sqrt(L);
             double pa = p[axis_], qa = q[axis_];
             bool ha = pa >= cut_, hb = qa >= cut_;
+            double dirFactor = 1.0;
+            if (wind_ != 0.0 && L > 0)
+                dirFactor = 1.0 + wind_ * (q[1 - axis_] - p[1 - axis_]) / L;
+            L *= dirFactor;
             if (ha == hb)
                 return ob::Cost(L * (ha ? weight_ : 1.0));
             double t = (cut_ - pa) / (qa - pa);  // fraction of the motion on a's side of the plane
@@ -108,7 +118,7 @@ namespace c17
     private:
         const world::World *w_;
         int axis_;
-        double cut_, weight_;
+        double cut_, weight_, wind_;
     };
 
     inline Json genOps(sim::Rng &g, bool thorough, bool directed = false)
@@ -146,6 +156,7 @@ namespace c17
                 op["obj_axis"] = (long)g.range(0, 1);
                 op["obj_cut"] = g.pick(std::vector<double>{0.25, 0.5, 0.6, 0.8});
                 op["obj_weight"] = g.pick(std::vector<double>{0.15, 3.0, 6.0, 40.0});
+                op["obj_wind"] = g.pick(std::vector<double>{0.0, 0.0, 0.6, 0.9, -0.9});
             }
             ops.push(op);
         }
@@ -381,7 +392,9 @@ namespace c17
             if (obj && op.has("obj_weight") && !c.w->curved)
             {
                 obj = std::make_shared<WeightedRegionObjective>(c.w.get(), (int)op.geti("obj_axis"), c.w->lo + op.getd("obj_cut") * (c.w->hi - c.w->lo),
-                                                                op.getd("obj_weight"));
+                                                                op.getd("obj_weight"), op.getd("obj_wind", 0.0));
+                if (op.getd("obj_wind", 0.0) != 0.0)
+                    res.probes["routine-given-a-direction-dependent-objective"]++;
                 regionObj = true;
                 res.probes["routine-given-a-non-metric-additive-objective"]++;
             }
